@@ -21,6 +21,7 @@ def check(ctx):
                       "grads -> assign -> both optimiser steps")
     ctx.rule("R16.6", "the adversary sees concat(Y_hat, Y) exactly when pass_y_ is set (equalized odds)")
     ctx.rule("R16.7", "the two back ends agree on the update rule")
+    ctx.guard(_pass_y_table, ctx)
     sig_by_engine = {}
     for mod, cls, lib in ENGINES:
         A = Analysis(ctx)
@@ -91,6 +92,39 @@ def check(ctx):
                "contraction for the projection" if vals[0] == vals[1] else f"back ends disagree: {sig_by_engine}",
                construct="sibling contraction agreement")
     ctx.floor("R16.7", "back-end train_steps with a recognised update", len(sig_by_engine), 2)
+
+
+def _pass_y_table(ctx):
+    """pass_y_ (read by both engines) is False for demographic_parity, True for equalized_odds, nothing else is accepted."""
+    from ..region import Raised, Unmodelled, pc_holds, specialise
+    from .common import M_ADV
+    CLS = M_ADV + ":_AdversarialFairness"
+    A = Analysis(ctx, max_depth=1, inline=lambda f_, d_: False)
+    r = A.run(CLS + ".__setup", cls_ctx=CLS)
+    fq = r.func
+    cons = mk("attr", r.self_term, "constraints")
+    st = [e for e in r.events if e.kind == "store" and e.data.get("tkind") == "attr" and e.data["attr"] == "pass_y_" and e.func == fq]
+    bad = []
+    for val, want in (("demographic_parity", False), ("equalized_odds", True), ("bogus", None)):
+        env = {cons: val}
+        try:
+            live = [e for e in st if pc_holds([l for l in e.pc if contains(l, lambda s_: s_ is cons)], env)]
+            raised = any(e.kind == "raise" and e.func == fq and [l for l in e.pc if contains(l, lambda s_: s_ is cons)]
+                         and pc_holds([l for l in e.pc if contains(l, lambda s_: s_ is cons)], env) for e in r.events)
+        except (Unmodelled, Raised) as ex:
+            bad.append(f"not modelled: {ex}")
+            break
+        if want is None:
+            if not raised or live:
+                bad.append("an unknown constraints value is accepted")
+            continue
+        got = [const_value(e.data["value"]) if e.data["value"].op == "const" else "?" for e in live]
+        if got != [want] or raised:
+            bad.append(f"constraints={val!r} -> pass_y_ {got if not raised else 'raises'} (documented {want})")
+    ctx.exhaustive_spaces.append("_AdversarialFairness.__setup: constraints in (demographic_parity, equalized_odds, other)")
+    ctx.ob("R16.6", fq, st[0].node if st else None, not bad and bool(st), "pass_y_ is False for demographic_parity, True for "
+           "equalized_odds, and any other constraints value is refused" if not bad and st else "; ".join(bad[:2]) or "pass_y_ is never set",
+           construct="pass_y_ table")
 
 
 def _tiny(A, r, update):
@@ -280,3 +314,14 @@ def _adversary_input(ctx, A, r, lib, cls):
            "pass_y_ is set, else Y_hat", construct=f"{cls}: adversary input")
     ok = arg(pred[0], 0) is r.params["X"]
     ctx.ob("R16.6", fq, pred[0].node, ok, "the predictor is evaluated on the batch X", construct=f"{cls}: predictor input")
+    # L_P = loss(prediction of the predictor, Y), L_A = loss(prediction of the adversary, A) in the library's argument order
+    # (torch: input first, keras: y_true first)
+    ahat = adv[0].data["result"]
+    for name, out, tgt in (("predictor_loss", yhat, r.params["Y"]), ("adversary_loss", ahat, r.params["A"])):
+        ls = [x for x in r.events if x.kind == "call" and x.data["fterm"].op == "attr" and x.data["fterm"].args[1] == name
+              and x.data["fterm"].args[0] is r.self_term]
+        want = (out, tgt) if lib == "torch" else (tgt, out)
+        ok = len(ls) == 1 and tuple(ls[0].data["args"][:2]) == want
+        order = "(prediction, target)" if lib == "torch" else "(target, prediction)"
+        ctx.ob("R16.6", fq, ls[0].node if ls else None, ok, f"{name} compares the model's own output with its target, in the "
+               f"library's order {order}", construct=f"{cls}: {name} arguments")
